@@ -137,6 +137,7 @@ func (t *Transport) Call(addr, serviceMethod string, args interface{}, reply int
 	if err != nil {
 		return err
 	}
+	verifPoint("transport.call.handed")
 	err = conn.Call(serviceMethod, args, reply)
 	conn.lastTime = t.now
 	checkPersistConnErr(err, conn)
